@@ -790,6 +790,7 @@ namespace ip {
 		}
 		std::uint64_t const dropped_seq = p.seq_nr;
 		m_outgoing_packets.push_back(std::move(p));
+		schedule_resend();
 
 		const int packets_in_cwnd = m_cwnd / m_mss;
 
@@ -802,6 +803,36 @@ namespace ip {
 
 		// TODO: this should really happen one second later to be accurate
 		if (m_cwnd < m_mss) m_cwnd = m_mss;
+	}
+
+	void tcp::socket::schedule_resend()
+	{
+		// with nothing in flight no ACK will come back to trigger the re-send
+		// of a dropped packet: do it from a timer
+		if (m_bytes_in_flight != 0 || m_outgoing_packets.empty()) return;
+		m_connect_timer.expires_after(chrono::milliseconds(100));
+		m_connect_timer.async_wait([this](boost::system::error_code const& ec)
+		{
+			if (ec) return;
+			if (!m_channel || m_bytes_in_flight != 0) return;
+			resend_dropped();
+			schedule_resend();
+		});
+	}
+
+	void tcp::socket::resend_dropped()
+	{
+		// each packet waiting at this point is re-sent at most once per call
+		// (a re-sent packet may be dropped again synchronously)
+		std::size_t resend_budget = m_outgoing_packets.size();
+		while (resend_budget-- > 0 && !m_outgoing_packets.empty()
+			&& m_bytes_in_flight
+				+ int(m_outgoing_packets.front().buffer.size()) <= m_cwnd)
+		{
+			aux::packet pkt = std::move(m_outgoing_packets.front());
+			m_outgoing_packets.erase(m_outgoing_packets.begin());
+			send_packet(std::move(pkt));
+		}
 	}
 
 	void tcp::socket::incoming_packet(aux::packet p)
@@ -823,17 +854,7 @@ namespace ip {
 				m_bytes_in_flight -= acked_bytes;
 
 				// potentially resend packets
-				// each packet waiting at this point is re-sent at most once per ACK
-				// (a re-sent packet may be dropped again synchronously)
-				std::size_t resend_budget = m_outgoing_packets.size();
-				while (resend_budget-- > 0 && !m_outgoing_packets.empty()
-					&& m_bytes_in_flight
-						+ int(m_outgoing_packets.front().buffer.size()) <= m_cwnd)
-				{
-					aux::packet pkt = std::move(m_outgoing_packets.front());
-					m_outgoing_packets.erase(m_outgoing_packets.begin());
-					send_packet(std::move(pkt));
-				}
+				resend_dropped();
 
 				// update cwnd based on the number of bytes ACKed.
 				// every round-trip, increase the window size by one packet
